@@ -186,6 +186,27 @@ void h_mark(void) {
   ASSERT(cv_mk_calls == 2 * SH_N && (SH_N == 0 || cv_mk_hits == 1), "[C01] Tree_Mark passes every key and every value to the callback exactly once");
   COVER(1, "mark done");
 }
+/* C14: show of a map writes "key:value" for every binding exactly once, in iteration order, separated by ", ";
+ * each piece goes to the sink at the position the previous one returned (print_to is cut by a recording contract) */
+static int cv_sh_calls, cv_sh_pairs, cv_sh_seps, cv_sh_bad, cv_sh_pos; static var cv_sh_out; static var cv_sh_k[8], cv_sh_v[8];
+static int cv_sh_streq(const char* a, const char* b) { size_t i = 0; while (a[i] != 0 && a[i] == b[i]) i++; return a[i] == b[i]; }
+int print_to_with(var out, int pos, const char* fmt, var args) {
+  if (out != cv_sh_out || pos != cv_sh_pos) cv_sh_bad++;
+  cv_sh_calls++;
+  if (cv_sh_streq(fmt, "%$:%$")) { if (cv_sh_pairs < 8) { cv_sh_k[cv_sh_pairs] = ((struct Tuple*)args)->items[0]; cv_sh_v[cv_sh_pairs] = ((struct Tuple*)args)->items[1]; } if (cv_sh_seps != cv_sh_pairs) cv_sh_bad++; cv_sh_pairs++; }
+  else if (cv_sh_streq(fmt, ", ")) { cv_sh_seps++; if (cv_sh_seps != cv_sh_pairs) cv_sh_bad++; }
+  cv_sh_pos += 1 + (cv_sh_calls % 3);
+  return cv_sh_pos;
+}
+void h_show(void) {
+  build(); cv_sh_out = &KX; cv_sh_pos = nondet_int(); __CPROVER_assume(cv_sh_pos >= 0 && cv_sh_pos < 1000);
+  int r = Tree_Show(t, cv_sh_out, cv_sh_pos);
+  ASSERT(cv_sh_pairs == SH_N && cv_sh_seps == (SH_N ? SH_N - 1 : 0) && cv_sh_bad == 0, "[C14] show of a Tree writes every binding once as key:value, separated by commas, each piece at the position the previous one returned");
+  var c = Tree_Iter_Init(t);
+  for (int j = 0; j < SH_N; j++) { ASSERT(j < 8 && cv_sh_k[j] == c, "[C14] the bindings are shown in iteration order"); struct TNode* n = find(EV(c)); ASSERT(n != NULL && cv_sh_v[j] == (var)&n->v, "[C14] each key is shown with its own value"); c = Tree_Iter_Next(t, c); }
+  ASSERT(r == cv_sh_pos && cv_sh_calls == cv_sh_pairs + cv_sh_seps + 2, "[C14] show returns the position after the closing brace");
+  COVER(1, "show done");
+}
 
 /* C09/C10: Tree hash = XOR over keys and values; Tree cmp = lexicographic over (key, value) in iteration order, shorter first */
 void h_hash_cmp(void) {
